@@ -92,10 +92,10 @@ macro_rules! trace_mod {
         }
     }
 
-    pub fn kvs(k: &K, v: &V) -> String { format!("{}.{}.{}.{}.{}.{}", k.id.0, k.tok, k.heap, v.tok, v.tag, v.heap) }
+    pub fn kvs(k: &K, v: &V) -> String { format!("{}.{}.{}.{}.{}.{}", k.id.0, k.tok, k.heap, v.tok(), v.tag(), v.heapv()) }
     pub fn ks(k: &K) -> String { format!("{}.{}.{}.-.-.-", k.id.0, k.tok, k.heap) }
-    pub fn vs3(v: &V) -> String { format!("{}.{}.{}", v.tok, v.tag, v.heap) }
-    pub fn vsk(v: &V) -> String { format!("-.-.-.{}.{}.{}", v.tok, v.tag, v.heap) }
+    pub fn vs3(v: &V) -> String { format!("{}.{}.{}", v.tok(), v.tag(), v.heapv()) }
+    pub fn vsk(v: &V) -> String { format!("-.-.-.{}.{}.{}", v.tok(), v.tag(), v.heapv()) }
     pub fn okv(o: Option<(&K, &V)>) -> String { match o { None => "kv:none".into(), Some((k, v)) => format!("kv:{}", kvs(k, v)) } }
 
     pub struct Node { pub addr: usize, pub prev: usize, pub next: usize, pub size: usize, pub kid: u32, pub ktok: u64, pub kheap: usize, pub vtok: u64, pub vtag: u64, pub vheap: usize }
@@ -103,7 +103,7 @@ macro_rules! trace_mod {
     pub fn snapshot(c: &Cache) -> (Vec<Node>, lru_mem::VerifGeometry) {
         let mut nodes = Vec::new();
         let g = c.verif_snapshot(|n| nodes.push(Node { addr: n.addr, prev: n.prev, next: n.next, size: n.size,
-            kid: n.key.id.0, ktok: n.key.tok, kheap: n.key.heap, vtok: n.value.tok, vtag: n.value.tag, vheap: n.value.heap }));
+            kid: n.key.id.0, ktok: n.key.tok, kheap: n.key.heap, vtok: n.value.tok(), vtag: n.value.tag(), vheap: n.value.heapv() }));
         (nodes, g)
     }
 
@@ -141,26 +141,26 @@ macro_rules! trace_mod {
         let sound = g.dangling.is_none() && !g.overlong;
         if sound {
             let lru_first: Vec<(u32, u64, u64)> = nodes.iter().rev().map(|n| (n.kid, n.ktok, n.vtok)).collect();
-            let fwd: Vec<(u32, u64, u64)> = c.iter().map(|(k, v)| (k.id.0, k.tok, v.tok)).collect();
-            let mut rev: Vec<(u32, u64, u64)> = c.iter().rev().map(|(k, v)| (k.id.0, k.tok, v.tok)).collect();
+            let fwd: Vec<(u32, u64, u64)> = c.iter().map(|(k, v)| (k.id.0, k.tok, v.tok())).collect();
+            let mut rev: Vec<(u32, u64, u64)> = c.iter().rev().map(|(k, v)| (k.id.0, k.tok, v.tok())).collect();
             rev.reverse();
             if fwd != lru_first { api.push("iter"); }
             if rev != lru_first { api.push("iter_rev"); }
             let keys: Vec<u64> = c.keys().map(|k| k.tok).collect();
-            let vals: Vec<u64> = c.values().map(|v| v.tok).collect();
+            let vals: Vec<u64> = c.values().map(|v| v.tok()).collect();
             if keys != lru_first.iter().map(|x| x.1).collect::<Vec<_>>() { api.push("keys"); }
             if vals != lru_first.iter().map(|x| x.2).collect::<Vec<_>>() { api.push("values"); }
             let mut kr: Vec<u64> = c.keys().rev().map(|k| k.tok).collect(); kr.reverse();
-            let mut vr: Vec<u64> = c.values().rev().map(|v| v.tok).collect(); vr.reverse();
+            let mut vr: Vec<u64> = c.values().rev().map(|v| v.tok()).collect(); vr.reverse();
             if kr != keys { api.push("keys_rev"); }
             if vr != vals { api.push("values_rev"); }
             // trait methods with default implementations (count, last, nth, size_hint, fold, rev) must agree with the walk too
             if c.iter().count() != nodes.len() || c.keys().count() != nodes.len() || c.values().rev().count() != nodes.len() { api.push("iter_count"); }
-            if c.iter().last().map(|(k, v)| (k.id.0, k.tok, v.tok)) != lru_first.last().copied() || c.iter().rev().last().map(|(k, v)| (k.id.0, k.tok, v.tok)) != lru_first.first().copied() { api.push("iter_last"); }
+            if c.iter().last().map(|(k, v)| (k.id.0, k.tok, v.tok())) != lru_first.last().copied() || c.iter().rev().last().map(|(k, v)| (k.id.0, k.tok, v.tok())) != lru_first.first().copied() { api.push("iter_last"); }
             for n in [0usize, 1, 2, nodes.len().saturating_sub(1), nodes.len()] {
-                if c.iter().nth(n).map(|(k, v)| (k.id.0, k.tok, v.tok)) != lru_first.get(n).copied() { api.push("iter_nth"); }
+                if c.iter().nth(n).map(|(k, v)| (k.id.0, k.tok, v.tok())) != lru_first.get(n).copied() { api.push("iter_nth"); }
                 if c.keys().nth_back(n).map(|k| k.tok) != lru_first.iter().rev().nth(n).map(|x| x.1) { api.push("iter_nth"); }
-                if c.values().skip(n).next().map(|v| v.tok) != lru_first.get(n).map(|x| x.2) { api.push("iter_nth"); }
+                if c.values().skip(n).next().map(|v| v.tok()) != lru_first.get(n).map(|x| x.2) { api.push("iter_nth"); }
             }
             { let (lo, hi) = c.iter().size_hint(); if lo > nodes.len() || hi.map_or(false, |h| h < nodes.len()) { api.push("iter_size_hint"); } }
             { let mut it = c.iter(); it.next(); it.next_back(); let (lo, hi) = it.size_hint(); let left = nodes.len().saturating_sub(2); if lo > left || hi.map_or(false, |h| h < left) { api.push("iter_size_hint"); } }
@@ -170,8 +170,8 @@ macro_rules! trace_mod {
             if c.len() != nodes.len() || c.len() != g.len { api.push("len"); }
             if c.is_empty() != nodes.is_empty() { api.push("is_empty"); }
             if c.current_size() != g.current_size || c.max_size() != g.max_size || c.capacity() != g.capacity { api.push("scalars"); }
-            if c.peek_lru().map(|(k, v)| (k.id.0, k.tok, v.tok)) != lru_first.first().copied() { api.push("peek_lru"); }
-            if c.peek_mru().map(|(k, v)| (k.id.0, k.tok, v.tok)) != lru_first.last().copied() { api.push("peek_mru"); }
+            if c.peek_lru().map(|(k, v)| (k.id.0, k.tok, v.tok())) != lru_first.first().copied() { api.push("peek_lru"); }
+            if c.peek_mru().map(|(k, v)| (k.id.0, k.tok, v.tok())) != lru_first.last().copied() { api.push("peek_mru"); }
             let dbg = format!("{:?}", c);
             let mut want = String::from("{");
             for (i, n) in nodes.iter().rev().enumerate() { if i > 0 { want.push_str(", "); } write!(want, "K{}: V{}", n.kid, n.vtag).unwrap(); }
@@ -180,7 +180,7 @@ macro_rules! trace_mod {
             for id in 0..universe {
                 let here = nodes.iter().find(|n| n.kid == id).map(|n| (n.ktok, n.vtok, n.addr));
                 if c.contains(&KeyId(id)) != here.is_some() { api.push("contains"); }
-                let pe = c.peek_entry(&KeyId(id)).map(|(k, v)| (k.tok, v.tok, k as *const K as usize));
+                let pe = c.peek_entry(&KeyId(id)).map(|(k, v)| (k.tok, v.tok(), k as *const K as usize));
                 match (pe, here) {
                     (None, None) => {}
                     (Some((kt, vt, kaddr)), Some((hk, hv, addr))) => {
@@ -190,8 +190,8 @@ macro_rules! trace_mod {
                     _ => api.push("peek_entry"),
                 }
                 let probe = K::probe(id);
-                if c.peek(&probe).map(|v| v.tok) != here.map(|h| h.1) { api.push("peek_owned"); }
-                if c.peek(&KeyId(id)).map(|v| v.tok) != here.map(|h| h.1) { api.push("peek"); }
+                if c.peek(&probe).map(|v| v.tok()) != here.map(|h| h.1) { api.push("peek_owned"); }
+                if c.peek(&KeyId(id)).map(|v| v.tok()) != here.map(|h| h.1) { api.push("peek"); }
             }
             let _ = c.hasher();
         }
@@ -295,13 +295,13 @@ macro_rules! trace_mod {
                 }
                 let c = w.slots[slot].as_mut().expect("operation on empty slot");
                 match op {
-                    Insert(i, kt, kh, vt, vg, vh) => match c.insert(K::new(*i, *kt, *kh), V { tok: *vt, tag: *vg, heap: *vh }) {
+                    Insert(i, kt, kh, vt, vg, vh) => match c.insert(K::new(*i, *kt, *kh), V::mk(*vt, *vg, *vh)) {
                         Ok(None) => "ins_ok:none".to_string(),
                         Ok(Some(o)) => { let s = format!("ins_ok:{}", vs3(&o)); std::mem::forget(o); s }
                         Err(InsertError::EntryTooLarge { key, value, entry_size, max_size }) => {
                             let s = format!("ins_toolarge:{}:{}:{}", kvs(&key, &value), entry_size, max_size); std::mem::forget((key, value)); s }
                     },
-                    TryInsert(i, kt, kh, vt, vg, vh) => match c.try_insert(K::new(*i, *kt, *kh), V { tok: *vt, tag: *vg, heap: *vh }) {
+                    TryInsert(i, kt, kh, vt, vg, vh) => match c.try_insert(K::new(*i, *kt, *kh), V::mk(*vt, *vg, *vh)) {
                         Ok(()) => "try_ok".to_string(),
                         // every other rejected call goes through the accessors of TryInsertError instead of destructuring it:
                         // entry() / key() / value() must show the very pair that into_entry() then hands back
@@ -309,9 +309,9 @@ macro_rules! trace_mod {
                             let variant = match &e { TryInsertError::EntryTooLarge { entry_size, max_size, .. } => format!("try_toolarge:@:{}:{}", entry_size, max_size),
                                 TryInsertError::WouldEjectLru { entry_size, free_memory, .. } => format!("try_wouldeject:@:{}:{}", entry_size, free_memory),
                                 TryInsertError::OccupiedEntry { .. } => "try_occupied:@".to_string() };
-                            let seen = { let (k, v) = e.entry(); (k.tok, v.tok, e.key().tok, e.value().tok) };
+                            let seen = { let (k, v) = e.entry(); (k.tok, v.tok(), e.key().tok, e.value().tok()) };
                             let (k, v) = e.into_entry();
-                            let s = if seen == (k.tok, v.tok, k.tok, v.tok) { variant.replace('@', &kvs(&k, &v)) } else { "try_badaccessor".to_string() };
+                            let s = if seen == (k.tok, v.tok(), k.tok, v.tok()) { variant.replace('@', &kvs(&k, &v)) } else { "try_badaccessor".to_string() };
                             std::mem::forget((k, v)); s }
                         Err(TryInsertError::EntryTooLarge { key, value, entry_size, max_size }) => {
                             let s = format!("try_toolarge:{}:{}:{}", kvs(&key, &value), entry_size, max_size); std::mem::forget((key, value)); s }
@@ -331,7 +331,7 @@ macro_rules! trace_mod {
                     RemoveEntry(i) => match c.remove_entry(&KeyId(*i)) { None => "kv:none".into(), Some((k, v)) => { let s = format!("kv:{}", kvs(&k, &v)); std::mem::forget((k, v)); s } },
                     RemoveLru => match c.remove_lru() { None => "kv:none".into(), Some((k, v)) => { let s = format!("kv:{}", kvs(&k, &v)); std::mem::forget((k, v)); s } },
                     RemoveMru => match c.remove_mru() { None => "kv:none".into(), Some((k, v)) => { let s = format!("kv:{}", kvs(&k, &v)); std::mem::forget((k, v)); s } },
-                    Mutate(i, nt, nh) => match c.mutate(&KeyId(*i), |v| { closure_calls.set(closure_calls.get() + 1); callback(CB_CLOSURE); v.tag = *nt; v.heap = *nh; 77u8 }) {
+                    Mutate(i, nt, nh) => match c.mutate(&KeyId(*i), |v| { closure_calls.set(closure_calls.get() + 1); callback(CB_CLOSURE); v.set(*nt, *nh); 77u8 }) {
                         Ok(None) => "mut_none".to_string(),
                         Ok(Some(r)) => if r == 77 { "mut_ok".into() } else { "mut_badresult".into() },
                         Err(MutateError::EntryTooLarge { key, value, old_entry_size, new_entry_size, max_size }) => {
@@ -428,7 +428,7 @@ macro_rules! trace_mod {
     pub fn kind_code(s: &str) -> Option<u8> { Some(match s { "hash" => CB_HASH, "eq" => CB_EQ, "clone" => CB_CLONE, "size" => CB_SIZE, "closure" => CB_CLOSURE, _ => return None }) }
 
     pub fn new_cache(w: &mut World, slot: usize, max: usize, cap: usize, hk: u8, out: &mut impl std::io::Write) {
-        let e0 = lru_mem::entry_size(&K::probe(0), &V { tok: 0, tag: 0, heap: 0 });
+        let e0 = lru_mem::entry_size(&K::probe(0), &V::mk(0, 0, 0));
         writeln!(out, "CFG {} {} {} {} {} {} {} {}", slot, max, cap, hk, e0, std::mem::size_of::<V>(), w.universe, $tag).unwrap();
         reset_counters();
         let c: Cache = ($mk)(max, cap, hk);
@@ -471,7 +471,7 @@ macro_rules! trace_mod {
     pub fn gen_world(seed: u64, t: u64, steps: usize, profile: &str, out: &mut impl std::io::Write) -> (World, bool) {
         NEXT_CLONE_TOK.with(|c| c.set(1_000_000_000 + t * 100_000));
         let mut rng = Rng::seeded(seed, t);
-        let e0 = lru_mem::entry_size(&K::probe(0), &V { tok: 0, tag: 0, heap: 0 });
+        let e0 = lru_mem::entry_size(&K::probe(0), &V::mk(0, 0, 0));
         if profile == "clog" {
             // systematic sweep of tombstone-clogged tables: a table of capacity c (every hashbrown capacity up to 112) is filled
             // exactly with consecutive keys (identity or multiplicative hasher: long occupied runs, so removals leave DELETED
@@ -573,7 +573,7 @@ macro_rules! trace_mod {
                     // mutate: bias towards present keys and towards growth at a full cache
                     let c = w.slots[slot].as_ref().unwrap();
                     let target = if clen > 0 && rng.below(4) != 0 { let n = rng.below(clen as u64) as usize; c.keys().nth(n).map(|k| k.id.0).unwrap_or(id) } else { id };
-                    let cur_v = c.peek(&KeyId(target)).map(|v| v.heap).unwrap_or(0);
+                    let cur_v = c.peek(&KeyId(target)).map(|v| v.heapv()).unwrap_or(0);
                     let nh = match rng.below(8) { 0 => cur_v, 1 => cur_v.saturating_sub(1 + rng.below(20) as usize), 2 => cur_v.saturating_add(1 + rng.below(40) as usize),
                         3 => cur_v.saturating_add(free.min(1 << 40)), 4 => cur_v.saturating_add(free.min(1 << 40)).saturating_add(1),
                         5 if maxs < 1 << 40 => maxs, 6 => cur_v.saturating_add(10), _ => vh };
@@ -648,7 +648,7 @@ macro_rules! trace_mod {
     /// (3 keys x 3 value sizes, the limit set so that two large or three small entries fit), each run as its
     /// own trace from an empty cache. alphabet 0 = full (about 35 operations), 1 = reduced (about 14).
     pub fn exhaust(depth: usize, alphabet: u8, hk: u8, out: &mut impl std::io::Write) -> u64 {
-        let e0 = lru_mem::entry_size(&K::probe(0), &V { tok: 0, tag: 0, heap: 0 });
+        let e0 = lru_mem::entry_size(&K::probe(0), &V::mk(0, 0, 0));
         let sizes: [usize; 3] = [0, 8, e0 + 8];
         let max0 = 3 * e0 + 16;                       // three small entries fit exactly with 16 to spare; a large one takes two slots
         let mut ops: Vec<Op> = Vec::new();
